@@ -1,0 +1,138 @@
+//go:build verif
+
+// Verification hooks (C20, call sites), further `log.run` paths (dispatched from verifLogRun):
+//
+// client paths proxy-<http|socks4a>-<refused|reset|earlyreset>: the real clientHandler with the
+// real obfs3 client factory and a real upstream proxy URL (http://errip:port resp.
+// socks4a://errip:port, the dialers of proxy_http.go / proxy_socks4.go over proxy.Direct).
+// errip= must be a loopback address (127.x.y.z); the "proxy" is a listener of this process
+// on that address that is not there (refused), resets the connection as soon as it is accepted
+// (earlyreset) or after it has read the CONNECT / SOCKS4 request (reset).  The errors are the
+// address-bearing *net.OpError values the kernel produces.  The SOCKS target must be an IPv4
+// address (both dialers resolve it).
+//
+// client / server path accept-errors: the real clientAcceptLoop / serverAcceptLoop on a scripted
+// net.Listener whose address is local= and whose Accept() fails twice with a temporary error
+// (EMFILE), then with a permanent one (EINVAL), then with net.ErrClosed for ever.
+//
+// Nothing here runs unless the driver is active; no existing behaviour is changed.
+package main
+
+import (
+	"net"
+	"net/url"
+	"os"
+	"strings"
+	"sync"
+	"syscall"
+	"time"
+
+	pt "gitlab.torproject.org/tpo/anti-censorship/pluggable-transports/goptlib"
+
+	"gitlab.com/yawning/obfs4.git/transports"
+)
+
+// verifLogExtraWho maps the paths of this file to the pseudo role "extra".
+func verifLogExtraWho(who, path string) string {
+	if strings.HasPrefix(path, "proxy-") || path == "accept-errors" {
+		return "extra"
+	}
+	return who
+}
+
+// verifScriptListener: Accept() returns the scripted errors, then net.ErrClosed.
+type verifScriptListener struct {
+	mu   sync.Mutex
+	errs []error
+	addr net.Addr
+}
+
+func (l *verifScriptListener) Accept() (net.Conn, error) {
+	l.mu.Lock()
+	defer l.mu.Unlock()
+	if len(l.errs) == 0 {
+		return nil, net.ErrClosed
+	}
+	e := l.errs[0]
+	l.errs = l.errs[1:]
+	return nil, e
+}
+func (l *verifScriptListener) Close() error   { return nil }
+func (l *verifScriptListener) Addr() net.Addr { return l.addr }
+
+// verifLogExtra returns the function to run for one of the extra paths, or an error reply.
+func verifLogExtra(who, path string, kv map[string]string, local, peer net.Addr, localTCP *net.TCPAddr) (func(), string) {
+	if path == "accept-errors" {
+		acceptErr := func(errno syscall.Errno) error {
+			return &net.OpError{Op: "accept", Net: "tcp", Addr: localTCP, Err: os.NewSyscallError("accept4", errno)}
+		}
+		ln := &verifScriptListener{addr: localTCP, errs: []error{acceptErr(syscall.EMFILE), acceptErr(syscall.EMFILE), acceptErr(syscall.EINVAL)}}
+		f := &verifLogFactory{}
+		switch who {
+		case "client":
+			return func() { _ = clientAcceptLoop(f, ln, nil) }, ""
+		case "server":
+			info := &pt.ServerInfo{OrAddr: verifOrHoldPort()}
+			return func() { _ = serverAcceptLoop(f, ln, info) }, ""
+		}
+		return nil, "bad-op"
+	}
+
+	w := strings.Split(path, "-") // proxy-<scheme>-<fault>
+	if who != "client" || len(w) != 3 || (w[1] != "http" && w[1] != "socks4a") {
+		return nil, "bad-op"
+	}
+	ip := net.ParseIP(kv["errip"])
+	if ip == nil || !ip.IsLoopback() || ip.To4() == nil {
+		return nil, "bad-op"
+	}
+	ln, err := net.ListenTCP("tcp", &net.TCPAddr{IP: ip})
+	if err != nil {
+		return nil, "error " + strings.ReplaceAll(err.Error(), " ", "_")
+	}
+	hostPort := ln.Addr().String()
+	switch w[2] {
+	case "refused":
+		ln.Close() // nobody listens there any more
+	case "reset", "earlyreset":
+		go func() {
+			for {
+				c, err := ln.AcceptTCP()
+				if err != nil {
+					return
+				}
+				if w[2] == "reset" {
+					// read (some of) the request first
+					_ = c.SetReadDeadline(time.Now().Add(5 * time.Second))
+					buf := make([]byte, 4096)
+					_, _ = c.Read(buf)
+				}
+				_ = c.SetLinger(0) // RST instead of FIN
+				c.Close()
+			}
+		}()
+	default:
+		ln.Close()
+		return nil, "bad-op"
+	}
+	if _, err := verifRealStateDir(); err != nil {
+		ln.Close()
+		return nil, "error " + strings.ReplaceAll(err.Error(), " ", "_")
+	}
+	rcf, err := transports.Get("obfs3").ClientFactory(verifRealDir)
+	if err != nil {
+		ln.Close()
+		return nil, "error " + strings.ReplaceAll(err.Error(), " ", "_")
+	}
+	asocks, err := verifSocksAuthRequest(kv["target"], "unused=1")
+	if err != nil {
+		ln.Close()
+		return nil, "bad-op"
+	}
+	proxyURI := &url.URL{Scheme: w[1], Host: hostPort}
+	rconn := verifNewLogConn(local, peer, nil, asocks...)
+	return func() {
+		defer ln.Close()
+		clientHandler(rcf, rconn, proxyURI)
+	}, ""
+}
